@@ -52,7 +52,8 @@ def load_mutants():
                 if meta.get('known_false_alarm'):
                     continue  # documented limitation (DESIGN.md section 8): kept for the record, not a negative control
                 props = ['C%02d' % i for i in range(1, 17)]
-            out.append(dict(id='%s:%s' % (sub, name), properties=props, expect=expect, patch=pp, source=sub))
+            out.append(dict(id='%s:%s' % (sub, name), properties=props, expect=expect, patch=pp, source=sub, anchored=meta.get('anchored_property'),
+                            alarmed=sorted((meta.get('first_run_alarms') or {}).keys())))
     return out
 
 
